@@ -1,25 +1,30 @@
 #!/bin/sh
-# Development aid: run the check of the property a seeded change breaks against a
+# Development aid: run the check(s) of the property a seeded change breaks against a
 # scratch copy of /repo with that change applied (never touches /repo itself).
 #   tools/run_seeded.sh <seeded-id> [property ...]
-# Writes /verif/seeded/<seeded-id>/result.txt.
-set -e
+# Writes /verif/seeded/<seeded-id>/result.txt (+ the replay file the check produced).
 cd /verif
 id="$1"; shift
 d=seeded/$id
 props="$*"
-[ -n "$props" ] || props=$(python3 -c "import json;print(json.load(open('$d/meta.json'))['property'])")
-wt=/tmp/seeded-wt-$id
-git -C /repo worktree remove --force $wt 2>/dev/null || true
-git -C /repo worktree add -q $wt HEAD
-git -C $wt apply "$(pwd)/$d/patch.diff"
+[ -n "$props" ] || props=$(python3 -c "import json;print(json.load(open('$d/meta.json'))['property'].split()[0].strip(',;'))")
+wt=/tmp/seeded-wt
+if [ -d $wt ]; then
+  git -C $wt checkout -q -- . ; git -C $wt clean -qfd
+  git -C $wt checkout -q --detach $(git -C /repo rev-parse HEAD)
+else
+  git -C /repo worktree add -q --detach $wt HEAD
+fi
+if ! git -C $wt apply "/verif/$d/patch.diff"; then echo "PATCH DOES NOT APPLY" > $d/result.txt; exit 1; fi
 : > $d/result.txt
+echo "## /repo HEAD $(git -C /repo rev-parse --short HEAD) + $id/patch.diff, $(date -u +%FT%TZ)" >> $d/result.txt
 for p in $props; do
+  rm -f replays/${p}_violation.json replays/${p}_broken.json
   echo "== ./check $p --repo $wt" >> $d/result.txt
-  ./check $p --repo $wt >> $d/result.txt 2>&1 || true
+  ./check $p --repo $wt 2>&1 | tail -6 >> $d/result.txt
   for f in replays/${p}_violation.json replays/${p}_broken.json; do
-    [ -f $f ] && cp $f $d/$(basename $f) || true
+    [ -f $f ] && cp $f $d/$(basename $f)
   done
 done
-git -C /repo worktree remove --force $wt
-tail -4 $d/result.txt
+git -C $wt checkout -q -- . ; git -C $wt clean -qfd
+tail -3 $d/result.txt
